@@ -401,6 +401,12 @@ impl InternerGuard<'_> {
             return i;
         }
 
+        // Versions in the tree are normalized, see `normalize_specifier`.
+        let (py_lower, py_upper) = (
+            py_lower.map(normalize_version),
+            py_upper.map(normalize_version),
+        );
+        let (py_lower, py_upper) = (py_lower.as_ref(), py_upper.as_ref());
         let py_range = Ranges::from_range_bounds((py_lower.cloned(), py_upper.cloned()));
         if py_range.is_empty() {
             // Oops, the bounds imply there is nothing that can match,
@@ -476,6 +482,12 @@ impl InternerGuard<'_> {
             return i;
         }
 
+        // Versions in the tree are normalized, see `normalize_specifier`.
+        let (py_lower, py_upper) = (
+            py_lower.map(normalize_version),
+            py_upper.map(normalize_version),
+        );
+        let (py_lower, py_upper) = (py_lower.as_ref(), py_upper.as_ref());
         let py_range = Ranges::from_range_bounds((py_lower.cloned(), py_upper.cloned()));
         if py_range.is_empty() {
             // Oops, the bounds imply there is nothing that can match,
@@ -826,7 +838,7 @@ impl Edges {
         // TODO(zanieb): We need to make sure this is performant, repeated unions like this do not
         // seem efficient.
         for version in versions {
-            range = range.union(&Ranges::singleton(version.clone()));
+            range = range.union(&Ranges::singleton(normalize_version(version)));
         }
 
         if negated {
@@ -1159,6 +1171,12 @@ fn strip_trailing_zeros(release: &[u64]) -> &[u64] {
         .rposition(|segment| *segment != 0)
         .unwrap_or(0);
     &release[..=end]
+}
+
+/// Strips any trailing `0`s from the release of a version, see [`normalize_specifier`].
+fn normalize_version(version: &Version) -> Version {
+    let release = strip_trailing_zeros(version.release()).to_vec();
+    version.clone().with_release(release)
 }
 
 /// Returns the equivalent `python_full_version` specifier for a `python_version` specifier.
